@@ -3,6 +3,8 @@
 //!   which = `H0` / `H1`   %grmtools section parser, required = false / true
 //!           `YN` `YG` `YE` (`YO` `YU`)  yacc parser of that kind (ASTWithValidityInfo::new
 //!                         + YaccGrammar::new_from_ast_with_validity_info)
+//!           `YF`          ASTWithValidityInfo::from_str (kind taken from the %grmtools section)
+//!                         + YaccGrammar::new_from_ast_with_validity_info
 //!           `L`           LRNonStreamingLexerDef::<DefaultLexerTypes<u32>>::from_str
 //!           `HS`          as `H0`, but on a thread with an 8 MiB stack (the size of a Linux main
 //!                         thread; the harness worker has 256 MiB) and printing only the class and
@@ -153,8 +155,19 @@ fn run_header(src: &str, required: bool) -> String {
 
 fn run_yacc(src: &str, kind: &str) -> String {
     let mut o = String::new();
-    let yk = yacckind(kind);
-    let av = ASTWithValidityInfo::new(yk, src);
+    let av = if kind == "F" {
+        // the kind is read from the %grmtools section (required there)
+        match <ASTWithValidityInfo as std::str::FromStr>::from_str(src) {
+            Ok(av) => av,
+            Err(errs) => {
+                let kinds = errs.iter().map(debug_kind).collect();
+                errs_line(&mut o, src, kinds, &errs);
+                return o;
+            }
+        }
+    } else {
+        ASTWithValidityInfo::new(yacckind(kind), src)
+    };
     let warns = av.ast().warnings();
     let res = YaccGrammar::<u32>::new_from_ast_with_validity_info(&av);
     match &res {
